@@ -176,4 +176,4 @@ def validate_histories(ctx, histories):
         for good in pending[:bad]:
             ctx.distinct.add(hashlib.md5(core.canon(good).encode()).hexdigest())
         # the other recorded histories of this element kind would be rejected the same way
-        pending = [x for x in pending[bad + 1:] if x[0]["k"] != ev["k"]]
+        pending = [x for x in pending[bad + 1:] if x[0]["kind"]["t"] != hh[0]["kind"]["t"]]
